@@ -395,7 +395,7 @@ func (r *psRun) step(op []interface{}) (psObs, error) {
 			replies = []interface{}{}
 		}
 		return psObs{R: replies, D: d}, nil
-	case "disc":
+	case "disc", "quit":
 		ci := int(num(op[1]))
 		c := r.conns[ci]
 		if c.closed {
@@ -404,6 +404,14 @@ func (r *psRun) step(op []interface{}) (psObs, error) {
 		}
 		m := r.sc.Conns[ci]
 		before := r.pc.conns(m)
+		if name == "quit" {
+			// the client says QUIT (answered +OK, then the server closes) instead of just closing its socket
+			if err := c.send("QUIT"); err == nil {
+				// +OK (or an error reply when the connection is not in subscribed mode), then the client goes away
+				c.c.SetReadDeadline(time.Now().Add(500 * time.Millisecond))
+				_, _ = c.read()
+			}
+		}
 		c.c.Close()
 		c.closed = true
 		reply = "ok"
